@@ -1,7 +1,7 @@
 (* C07: table-construction theorems stated directly about the definitions generated from the current
    vyper/codegen/jumptable_utils.py (GenJumptable.v), via the bridge to the hand model. *)
 From Coq Require Import ZArith List Bool Lia Permutation.
-From Verif Require Import C07.Jumptable C07.JumptableProofs C07.GenSupport C07.GenJumptable C07.Bridge.
+From Verif Require Import C07.Jumptable C07.JumptableProofs C07.JtSupport C07.GenJumptable C07.Bridge.
 Import ListNotations.
 Open Scope Z_scope.
 
